@@ -72,7 +72,7 @@ def main():
                 caught.append(f"{p}: {sl} ({tag})")
         summ = _clean((m.get("summary") or "").replace("|", "/").replace("\n", " "))
         summ = summ[:230] + ("…" if len(summ) > 230 else "")
-        need = (m.get("needs_to_manifest") or "").replace("|", "/").replace("\n", " ")
+        need = _clean((m.get("needs_to_manifest") or "").replace("|", "/").replace("\n", " "))
         need = need[:200] + ("…" if len(need) > 200 else "")
         status = "; ".join(caught) if caught else ("NOT CAUGHT" if r else "not evaluated")
         note = NOTES.get(d.name, "")
